@@ -160,6 +160,10 @@ def check_spec(ctx, spec, hook):
 def gen_random(rng):
     convert = rng.random() < 0.6
     nrow = rng.choice([None, rng.randint(1, 50), rng.randint(1, 8), rng.randint(2, 15)])
+    if rng.random() < 0.03:
+        # sizes small examples never reach: hundreds of rows, pages of a hundred rows, a dozen columns
+        return G.gen_table_spec(rng, nrows=(120, 400), ncols=(1, 14), nrow=rng.choice([None, 66, 100, 130, 7]),
+                                convert=convert, attrs_p=0.05, maxruns=rng.choice([4, 12, 40]))
     if rng.random() < 0.85:
         return G.gen_table_spec(rng, nrows=rng.choice([(0, 4), (1, 20), (10, 50)]), ncols=(1, 7), nrow=nrow,
                                 convert=convert, attrs_p=0.08, long_p=rng.choice([0, 0, 0.1, 0.3]),
